@@ -163,10 +163,10 @@ pub fn exec(spec: &Spec, r: &mut RunResult) {
                 );
                 // signature facts: solver kind; program coherence; is one answer merely the weaker (ambiguous) form of the other?
                 let mut sig = format!("{}:warm-differs-from-fresh", cfg.kind());
+                if crate::ssim::overlap_tag(&spec.world, op.goal) {
+                    sig.push_str("+overlap");
+                }
                 if let Ok((prog, _)) = wgen::parse_world(&spec.world) {
-                    if wgen::has_overlapping_impls(&prog) {
-                        sig.push_str("+overlap");
-                    }
                     if let Some(Ok(ast)) = wgen::parse_world(&spec.world).ok().and_then(|(_, g)| g.get(op.goal).cloned()) {
                         let mut gp = vec![];
                         ast.preds(&mut gp);
@@ -179,7 +179,8 @@ pub fn exec(spec: &Spec, r: &mut RunResult) {
                 if let (Out::Ans(a), Out::Ans(b)) = (&out, &fresh) {
                     let amb = |s: &Sol| s.as_ref().map(|x| x.is_ambig()).unwrap_or(false);
                     if (amb(a) || amb(b)) && cmp::contradiction(a, b).is_none() {
-                        sig.push_str("+weaker");
+                        // one answer Unique and the other its ambiguous form, or two ambiguous answers with different guidance
+                        sig.push_str(if amb(a) && amb(b) { "+guidance-differs" } else { "+unique-vs-ambig" });
                     }
                 }
                 r.violate("warm-differs-from-fresh", detail, Some(&sig));
